@@ -149,6 +149,7 @@ def body_kmu(n1d, Nk, mu_free, poles, fourier, nthread, k0_zero, ambient=None):
     esum = [[0.0] * Nmu for _ in range(Nk)]
     eksum = [[0.0] * Nmu for _ in range(Nk)]
     epole = [[0.0] * Nk for _ in poles]
+    binmodes = [[] for _ in range(Nk)]      # (mesh cell symbol, mu) of every mode of a k bin, for the odd multipoles
     for fa, fb, fc, cell in modes:
         k2 = fa * fa + fb * fb + fc * fc
         mu2 = fractions.Fraction(fc * fc, k2) if k2 else fractions.Fraction(0)
@@ -163,6 +164,7 @@ def body_kmu(n1d, Nk, mu_free, poles, fourier, nthread, k0_zero, ambient=None):
             m += 1
         val = common.cell(W, *cell)
         ecount[b][m] += 1
+        binmodes[b].append((val, abs(fc) / float(k2) ** 0.5 if k2 else 0.0))
         esum[b][m] = esum[b][m] + val
         eksum[b][m] = eksum[b][m] + npshim.sqrt(float(k2))
         for ip, l in enumerate(poles):
@@ -190,6 +192,30 @@ def body_kmu(n1d, Nk, mu_free, poles, fourier, nthread, k0_zero, ambient=None):
             else:
                 ok = c.prove(z3.And(gotw == 0, gotk == 0), 'empty bins stay zero', key='kmu:mean') and ok
         for ip, l in enumerate(poles):
+            if l % 2 == 1 and l <= 5:
+                # odd multipoles: (2l+1) L_l(mu) is irrational in general, so the row (a linear form in the mesh values) is checked
+                # coefficient by coefficient: substituting 1 for one mesh value and 0 for the others must leave (2l+1) L_l(mu_i)/count
+                gotp = core.lift(common.cell(wpoles, ip, b)).as_real()
+                syms = {}
+                for val, mu in binmodes[b]:
+                    e_ = core.lift(val).as_real()
+                    ent = syms.setdefault(e_.get_id(), [e_, 0.0])
+                    ent[1] += (2 * l + 1) * {1: mu, 3: (5 * mu ** 3 - 3 * mu) / 2, 5: (63 * mu ** 5 - 70 * mu ** 3 + 15 * mu) / 8}[l]
+                allv = [core.lift(common.cell(W, *idx)).as_real() for idx in real_np.ndindex(n1d, n1d, kz)]
+                good, worst = True, 0.0
+                for key_, (e_, coef) in syms.items():
+                    sub = [(v, z3.RealVal(1 if v.get_id() == key_ else 0)) for v in allv]
+                    r = z3.simplify(z3.substitute(gotp * tot, *sub))
+                    if not z3.is_rational_value(r):
+                        good = False
+                        break
+                    gotc = float(fractions.Fraction(r.numerator_as_long(), r.denominator_as_long()))
+                    worst = max(worst, abs(gotc - coef))
+                    good = good and abs(gotc - coef) <= 1e-6 * (1 + abs(coef))
+                if tot:
+                    ok = c.prove(z3.BoolVal(good), f'l={l} multipole = mean of (2l+1) L_l(mu) x value over the modes of the k bin (odd l: coefficient of every mesh value)',
+                                 key='kmu:pole', info=dict(worst_coefficient_error=worst)) and ok
+                continue
             if l % 2 or l > 4:
                 continue
             gotp = core.lift(common.cell(wpoles, ip, b)).as_real()
@@ -286,6 +312,7 @@ def items(tier, seed):
     kmu.append((2, True, 1, 2, True, (0, 2, 4)))
     # multipole sets in other orders / without the monopole / repeated: every row is the Legendre-weighted mode mean of ITS pole
     kmu += [(3, True, 1, 1, False, (2, 0)), (2, True, 1, 1, False, (4, 2, 0)), (3, True, 1, 1, False, (2, 4)), (2, True, 2, 1, False, (2, 0, 4))]
+    kmu += [(3, True, 1, 1, False, (0, 1, 2, 3, 4)), (2, True, 1, 1, False, (1, 3))]      # odd multipoles
     kppi.append((4, True, 1, 2, 1))
     if tier == 'thorough':
         for n in (5, 6):
@@ -408,7 +435,8 @@ for mode in ('py_func', 'compiled'):
             wc, cnt = out[0], out[1]
             ecnt, etot = brute(kedges, mued, lambda a, b, c: np.sqrt(a * a + b * b + c * c), lambda a, b, c: (abs(c) / np.sqrt(a * a + b * b + c * c)) if (a or b or c) else 0.0)
             # multipoles: mean over ALL modes of the k bin of (2l+1) L_l(mu) x value, row ip belongs to poles[ip]
-            leg = {{0: lambda u: 1.0, 2: lambda u: 5 * (1.5 * u * u - 0.5), 4: lambda u: 9 * (35 * u ** 4 - 30 * u * u + 3) / 8}}
+            leg = {{0: lambda u: 1.0, 2: lambda u: 5 * (1.5 * u * u - 0.5), 4: lambda u: 9 * (35 * u ** 4 - 30 * u * u + 3) / 8,
+                   1: lambda u: 3 * u, 3: lambda u: 7 * (5 * u ** 3 - 3 * u) / 2, 5: lambda u: 11 * (63 * u ** 5 - 70 * u ** 3 + 15 * u) / 8}}
             kall = brute(kedges, np.array([0.0, 1.0]), lambda a, b, c: np.sqrt(a * a + b * b + c * c), lambda a, b, c: (abs(c) / np.sqrt(a * a + b * b + c * c)) if (a or b or c) else 0.0)[0][:, 0]
             for ip, l in enumerate(case['poles']):
                 if l not in leg: continue
@@ -424,7 +452,7 @@ for mode in ('py_func', 'compiled'):
                             cell = (a, b, int(abs(fc))) if (fc >= 0 or (n1d % 2 == 0 and c == n1d // 2)) else ((-a) % n1d, (-b) % n1d, int(-fc))
                             ptot[ix] += W[cell] * leg[l](abs(fc) / kk if kk else 0.0)
                 exp_p = np.divide(ptot, kall, out=np.zeros_like(ptot), where=kall > 0)
-                if not np.allclose(np.asarray(out[2])[ip], exp_p, rtol=1e-9, atol=1e-12):
+                if not np.allclose(np.asarray(out[2])[ip], exp_p, rtol=1e-6, atol=1e-9):
                     bad.append(f'{{mode}}: poles={{case["poles"]}}: row {{ip}} (l={{l}}) = {{np.asarray(out[2])[ip].tolist()}} expected {{exp_p.tolist()}}')
         else:
             pimax, Npi = fl(m.get('pimax', 1)), case['Npi']
